@@ -113,6 +113,11 @@ def make_grammars(seed, tier):
                 t = genrun.G(gid + "n", strip_memo(text), ctx=gg.ctx, meta=dict(meta, twin_of=gid, twin="nomemo", memo=False))
                 t.gg = gg
                 gs.append(t)
+            if fam == "core" and i < (30 if tier == "quick" else 300) and not meta["ctx"]:
+                # the same grammar printed with redundant parentheses (C12: layout must not change the meaning)
+                t = genrun.G(gid + "p", gg.text(parens=True), ctx=gg.ctx, meta=dict(meta, twin_of=gid, twin="parens"))
+                t.gg = gg
+                gs.append(t)
             if meta["include"] and fam == "include":
                 t = genrun.G(gid + "i", gg.text(inline=True), ctx=gg.ctx, meta=dict(meta, twin_of=gid, twin="inlined"))
                 t.gg = gg
@@ -248,11 +253,25 @@ def build(seed, tier, log=vp.log):
                     skipped.append(g.gid)
             return res
 
-    nchunk = 16 if len(gl) >= 32 else max(1, len(gl) // 2)
-    chunks = [gl[i::nchunk] for i in range(nchunk)]
+    # grammars whose real parser hung or crashed on some input are likely to exhaust the model's bounds too: they
+    # run alone, under the single-grammar limit, instead of holding up a whole chunk until the chunk limit
+    suspect = {c.g.gid for c in cases if c.impl["k"] in ("TIMEOUT", "CRASH")}
+    alone = [[g] for g in gl if g.gid in suspect]
+    gl_n = [g for g in gl if g.gid not in suspect]
+
+    def work_alone(chunk):
+        try:
+            return [run_chunk(chunk, 90)]
+        except Exception:
+            skipped.append(chunk[0].gid)
+            return []
+
+    nchunk = 16 if len(gl_n) >= 32 else max(1, len(gl_n) // 2)
+    chunks = [gl_n[i::nchunk] for i in range(nchunk)]
     from concurrent.futures import ThreadPoolExecutor
-    with ThreadPoolExecutor(nchunk) as ex:
-        for res in ex.map(work, chunks):
+    with ThreadPoolExecutor(nchunk + 2) as ex:
+        futs = [ex.submit(work_alone, ch) for ch in alone] + [ex.submit(work, ch) for ch in chunks]
+        for res in (f.result() for f in futs):
             for ks, mo, so in res:
                 for k, a, b in zip(ks, mo, so):
                     cases[k].model = parse_model(a)
@@ -267,10 +286,17 @@ def build(seed, tier, log=vp.log):
             "cases_not_run_after_a_hang": skipped_cases}
 
 
+# what the stream is made from: the generators, the harness, the corpus and the library modules that build, run
+# and parse it - not the per-property checks (lib/props) nor the manifest/design tools, which only read it
+STREAM_INPUTS = ["tools/gen.py", "tools/gen_invalid.py", "tools/sexp2coq.py", "tools/extract_facts.py", "tools/templates",
+                 "lib/stream.py", "lib/genrun.py", "lib/canon.py", "lib/vp.py", "lib/decls.py", "lib/assertgen.py", "lib/termstream.py",
+                 "ocaml", "harness", "corpus"]
+
+
 def get(ctx):
     os.makedirs(STREAM, exist_ok=True)
     # the model enters the key through its extracted source: adding theorems does not invalidate the stream
-    key = hashlib.sha1(("%s|%s|%s|%s|%s" % (vp.repo_hash(), vp.verif_hash(["tools", "lib", "ocaml", "harness", "corpus"]), vp.model_hash(),
+    key = hashlib.sha1(("%s|%s|%s|%s|%s" % (vp.repo_hash(), vp.verif_hash(STREAM_INPUTS), vp.model_hash(),
                                             ctx.seed, ctx.tier)).encode()).hexdigest()[:16]
     path = os.path.join(STREAM, "run-%s.pkl" % key)
     if os.path.exists(path) and os.path.isdir(os.path.join(STREAM, "bin-%s" % key)):
